@@ -137,6 +137,13 @@ impl NetworkStream {
         }
 
         let tcp_stream = try_connect(server, timeout, local_addr)?;
+        // the TLS handshake reads and writes too
+        tcp_stream
+            .set_read_timeout(timeout)
+            .map_err(error::connection)?;
+        tcp_stream
+            .set_write_timeout(timeout)
+            .map_err(error::connection)?;
         let mut stream = NetworkStream::new(InnerNetworkStream::Tcp(tcp_stream));
         if let Some(tls_parameters) = tls_parameters {
             stream.upgrade_tls(tls_parameters)?;
@@ -177,7 +184,14 @@ impl NetworkStream {
             InnerTlsParameters::NativeTls(connector) => {
                 let stream = connector
                     .connect(tls_parameters.domain(), tcp_stream)
-                    .map_err(error::connection)?;
+                    .map_err(|err| match err {
+                        // the socket is blocking: a read or write of the handshake exceeded
+                        // the socket timeout
+                        native_tls::HandshakeError::WouldBlock(_) => error::connection(
+                            io::Error::new(io::ErrorKind::TimedOut, "TLS handshake timed out"),
+                        ),
+                        err => error::connection(err),
+                    })?;
                 InnerNetworkStream::NativeTls(stream)
             }
             #[cfg(feature = "rustls")]
